@@ -11,7 +11,7 @@ ID = 'C19'
 LEVEL = 'exploration'
 RULE = ('all formulas of the stated fragment (arithmetic, comparisons, Boolean operators, once/historically bounded or not, bounded eventually/always; '
         '<=2 operators, 3-chains) x all traces up to length n read both as a discrete trace and as a step signal sampled on the grid; sampling period '
-        '1 s and 500 ms with bounds that are multiples of it; deep layers: bounds up to 7 over a two-letter alphabet (n=9/11) and single wide operators over three value levels (n=8/10); the real dense offline result read at k*period must equal the real discrete offline '
+        '1 s and 500 ms with bounds that are multiples of it (the 500 ms configuration also on the combined classes StlDiscreteTimeSpecification / StlDenseTimeSpecification); deep layers: bounds up to 7 over a two-letter alphabet (n=9/11) and single wide operators over three value levels (n=8/10); the real dense offline result read at k*period must equal the real discrete offline '
         'result at sample k for every k with k + horizon < n; life layer: the same comparison on a discrete and a dense object that were both configured and evaluated under another default unit '
         '(and sampling period) before and then switched with spec.unit / set_sampling_period (vf/reconf.py; bounds unit-less and with s / ms); non-trivial = the reference output is not constant +-inf and the top operator mattered')
 ASSUMPTIONS = ['both sides are the real implementation; the reference is only used for the horizon and the non-triviality count']
@@ -140,7 +140,14 @@ def mixed_units_bound(I):
     return '[%ds,%dms]' % (I[0], I[1] * 1000)
 
 
-CONFIGS = (('1s', 1.0, F.default_bound, None), ('500ms', 0.5, half_bound, (500, 'ms')), ('1s-mixed-units', 1.0, mixed_units_bound, None))
+CONFIGS = (('1s', 1.0, F.default_bound, None), ('500ms', 0.5, half_bound, (500, 'ms')), ('1s-mixed-units', 1.0, mixed_units_bound, None),
+           # the combined classes StlDiscreteTimeSpecification / StlDenseTimeSpecification (evaluate() and update() behind one set of setters)
+           ('500ms-combined-classes', 0.5, half_bound, (500, 'ms'), True))
+
+
+def _specs(text, vs, cfg):
+    comb = len(cfg) > 4
+    return (impl.build('dt_off', text, vs, period=cfg[3], combined=comb), impl.build('ct_off', text, vs, combined=comb))
 
 
 def check_case(case, specs=None):
@@ -149,7 +156,7 @@ def check_case(case, specs=None):
     cfg = [c for c in CONFIGS if c[0] == case['config']][0]
     text = 'out = ' + F.pr(f, cfg[2])
     if specs is None:
-        specs = (impl.build('dt_off', text, vs, period=cfg[3]), impl.build('ct_off', text, vs))
+        specs = _specs(text, vs, cfg)
     w = case['trace']
     n = len(next(iter(w.values())))
     h = refsem.horizon(f)
@@ -181,9 +188,11 @@ def run_shard(shard, tier, res):
         if shard.get('deep3'):
             n, values = (8 if quick else 10), F.V3
         for cfg in (CONFIGS[:2] if shard.get('deep3') and quick else CONFIGS):
+            if len(cfg) > 4 and quick and res.formulas % 2:
+                continue
             text = 'out = ' + F.pr(f, cfg[2])
             try:
-                specs = (impl.build('dt_off', text, vs, period=cfg[3]), impl.build('ct_off', text, vs))
+                specs = _specs(text, vs, cfg)
             except Exception as e:
                 res.violation(mod, {'formula': fj, 'vars': vs, 'config': cfg[0], 'trace': {}}, 'parse() raised %s: %s' % (type(e).__name__, e))
                 continue
